@@ -859,6 +859,17 @@ class Gridder(GeospatialGrid):
                 _lats[_inf_mask], axis=1
             )
 
+            # A crossing point lies between the segment's end points. Computed
+            # from the map line it can land a few ulp outside (beyond 90
+            # degrees for a segment that meets a pole on a longitude line,
+            # where the geodesic length of the piece is then undefined).
+            _end_lats = lats[1:][_mask]
+            _lats_for_lon_intersections = np.clip(
+                _lats_for_lon_intersections,
+                np.expand_dims(np.minimum(_lats, _end_lats), axis=1),
+                np.expand_dims(np.maximum(_lats, _end_lats), axis=1),
+            )
+
             # now store the lon lines intersected by the segment in the
             # lon_lines_intersected array
             lon_lines_intersected[_mask, :_abs_lon_index_change] = (
